@@ -122,7 +122,8 @@ def handle (st : Option State) (j : Json) : Option State × Json :=
     match Cls.ofString c, Mem.ofString m with
     | some c, some m =>
       match resolve c m with
-      | some mb => (st, ok (Json.mkObj [("kind", Json.str (mkindJ mb.kind)),
+      | some mb => (st, ok (Json.mkObj [("cls", Json.str ((reprStr mb.cls).replace "Nix.Stamps.Gen.Cls." "")),
+          ("kind", Json.str (mkindJ mb.kind)),
           ("outcomes", Json.arr (mb.outcomes.map fun o =>
             Json.arr #[Json.str (match o.exit with | .returns => "returns" | .raises => "raises"),
                        Json.str (touchJ o.touch)]).toArray)]))
